@@ -287,6 +287,23 @@ def main():
 
         derr = build_driver(log)
 
+        # thorough tier: re-check the compiled property file and everything it depends on with the
+        # independent checker and record the axioms it reports
+        coqchk = None
+        if tier == 'thorough' and ok:
+            mods = ['Morlock.' + t[:-3].replace('/', '.') for t in targets if t.startswith('Properties/')]
+            if mods:
+                qs = []
+                for d in ('gen', 'Model', 'Spec', 'Lemmas', 'Impl', 'Properties'):
+                    qs += ['-Q', d, 'Morlock.' + d]
+                rc, cout, dt = run(['coqchk', '-silent', '-o'] + qs + mods, cwd=COQ, timeout=2400)
+                log['coqchk_s'] = round(dt, 1)
+                m = re.search(r'\* Axioms:(.*?)\n\s*\n\* Constants', cout, re.S)
+                coqchk = {'rc': rc, 'axioms': (m.group(1).strip() if m else cout[-400:])}
+                if rc != 0:
+                    failures.append({'file': 'coqchk', 'line': 0, 'lemma': ' '.join(mods), 'error': cout[-800:]})
+                    ok = False
+
     if derr:
         failures.append({'file': 'ocaml/Extract.v', 'line': 0, 'lemma': 'extraction', 'error': derr[-1500:]})
         ok = False
@@ -400,7 +417,7 @@ def main():
         exit_code = 1
 
     finish(prop, tier, seed, cfg, log, t0, n_obl, discharged, results, classes,
-           {'closed': closed, 'axioms': axioms, 'failed': failed_lemmas}, exit_code,
+           {'closed': closed, 'axioms': axioms, 'failed': failed_lemmas, 'coqchk': coqchk}, exit_code,
            notes, n_cases=n_cases, n_mismatch=len(mismatch), n_spec=len(new_viol), known_hits=known_hits,
            obl_names=obl_names)
     return exit_code
